@@ -271,6 +271,9 @@ type callEnv struct {
 	// versions known for SetActiveSchemaVersion
 	versions   []string
 	importFile string
+	// txnContinue: operations of the transaction to leave out (reference run), and those that reported an error
+	skipMask   int
+	lastFailed int
 }
 
 type remoteCommit struct {
@@ -325,13 +328,13 @@ func gqlErr(errs []string) error {
 	return fmt.Errorf("%s", strings.Join(errs, "; "))
 }
 
-const nCallKinds = 22
+const nCallKinds = 23
 
 func callKindName(k int) string {
 	return []string{"gqlCreate", "gqlCreateMany", "gqlUpdateByID", "gqlUpdateByFilter", "gqlDeleteByID", "gqlDeleteByFilter",
 		"gqlUpsert", "colCreate", "colCreateMany", "colUpdate", "colSave", "colDelete", "colUpdateWithFilter",
 		"colDeleteWithFilter", "createIndex", "dropIndex", "addSchema", "patchSchema", "setActiveVersion", "merge",
-		"explicitTxn", "basicImport"}[mod(k, nCallKinds)]
+		"explicitTxn", "basicImport", "txnContinue"}[mod(k, nCallKinds)]
 }
 
 // buildCall makes the API call for a step on a pre-state.
@@ -550,6 +553,36 @@ func buildCall(s Step, env *callEnv) *apiCall {
 					return res.GQL.Errors[0]
 				}
 			}
+			return txn.Commit(n.reqCtx())
+		}
+	case "txnContinue":
+		// an explicit transaction whose caller goes on after an operation reported an error, and commits:
+		// the operations that failed must have no part in what is committed
+		d := pickLive(s.B)
+		c.Run = func(n *SimNode, h *handles) error {
+			txn, err := n.DB.NewTxn(n.reqCtx(), false)
+			if err != nil {
+				return err
+			}
+			defer txn.Discard(n.reqCtx())
+			ops := []string{
+				fmt.Sprintf(`mutation { create_User(input: {name: %q, age: %d, points: %d}) { _docID } }`, name+"-t1", age, pts),
+				fmt.Sprintf(`mutation { create_User(input: {name: %q, age: %d}) { _docID } }`, name+"-t2", age+900),
+			}
+			if d != nil {
+				ops = append(ops, fmt.Sprintf(`mutation { update_User(docID: %q, input: {age: %d, flag: true}) { _docID } }`, d["_docID"], 20+mod(s.D, 7)))
+			}
+			ops = append(ops, fmt.Sprintf(`mutation { create_User(input: {name: %q, age: %d}) { _docID } }`, name+"-t1", age)) // the first one again: already exists
+			failed := 0
+			for k, q := range ops {
+				if env.skipMask>>uint(k)&1 == 1 {
+					continue
+				}
+				if res := txn.ExecRequest(n.reqCtx(), q); len(res.GQL.Errors) > 0 {
+					failed |= 1 << uint(k)
+				}
+			}
+			env.lastFailed = failed
 			return txn.Commit(n.reqCtx())
 		}
 	case "basicImport":
